@@ -711,3 +711,103 @@ Definition check_time (c : ttable * list top * list (Z * arr)) : Z :=
   if tall_eqb (trun (tf_of_table t) false ([], []) ops) seen then 0
   else if tall_eqb (trun (tf_of_table t) true ([], []) ops) seen then 2
   else 1.
+
+(* ------------------------------------------------------------------------------------ PosVel / PositionDelta objects *)
+(* Objects that hold other memoised parts (PosVelArray.pos/.vel/.trs2acr, conversions trs <-> kepler without
+   LRU, PositionDelta.enu which depends on ref_pos).  Here only the cache-free meaning is modelled: every read
+   is the (unmodelled) function `pvf` of the *current* contents of the object and of the object it is linked to
+   (`other` of a PosVel, `ref_pos` of a delta).  One switch: c08_refpos_mutation_stale - a delta keeps its
+   converted value until it is assigned to itself (mutating ref_pos does not invalidate it).
+   kinds: 3 TrsPosVel, 4 KeplerPosVel, 5 TrsPositionDelta, 6 TrsPosition (used as ref_pos).
+   reads: 1 pos, 2 vel, 3 the other system, 4 trs2acr, 5 distance, 6 elevation (5, 6 need `other`), 8 delta.enu *)
+Definition pvobj : Type := (Z * arr * option Z * option arr)%type.    (* kind, contents, linked slot, memo of read 8 *)
+
+Inductive pvop : Type :=
+| PNew (s : Z) (kind : Z) (a : arr) (link : option Z)
+| PRead (s : Z) (what : Z)
+| PSet (s : Z) (mode : Z) (v : list Z)        (* mode 2: every row := v, otherwise the first row := v *)
+| POther (s : Z) (t : option Z).
+
+Fixpoint repeat_rows (v : list Z) (n : nat) : list Z :=
+  match n with O => [] | S m => v ++ repeat_rows v m end.
+
+Definition set_rows (mode : Z) (v : list Z) (a : arr) : arr :=
+  if mode =? 2 then (fst a, repeat_rows v (Nat.div (length (snd a)) (length v)))
+  else (fst a, v ++ skipn (length v) (snd a)).
+
+Section PVMachine.
+  Variable pvf : Z -> list arr -> option arr.
+  Variable stale_ref : bool.
+
+  Fixpoint pv_update (s : Z) (f : pvobj -> pvobj) (w : list (Z * pvobj)) : list (Z * pvobj) :=
+    match w with
+    | [] => []
+    | (k, o) :: t => if k =? s then (k, f o) :: t else (k, o) :: pv_update s f t
+    end.
+
+  Definition pvstep (w : list (Z * pvobj)) (o : pvop) : list (Z * pvobj) * option (arr * Z) :=
+    match o with
+    | PNew s kind a link => ((s, (kind, a, link, None)) :: w, Some (([], []), 0))
+    | PSet s mode v =>
+        (pv_update s (fun x => let '(k, a, l, _) := x in (k, set_rows mode v a, l, None)) w, Some (([], []), 0))
+    | POther s t => (pv_update s (fun x => let '(k, a, _, m) := x in (k, a, t, m)) w, Some (([], []), 0))
+    | PRead s what =>
+        match assoc_z s w with
+        | None => (w, Some (([], []), -9))
+        | Some (k, a, l, m) =>
+            if (what =? 5) || (what =? 6) || (what =? 8) then
+              match l with
+              | None => (w, Some (([], []), -2))
+              | Some t =>
+                  match assoc_z t w with
+                  | None => (w, Some (([], []), -9))
+                  | Some (k2, a2, _, _) =>
+                      match (if stale_ref && (what =? 8) then m else None) with
+                      | Some v => (w, Some (v, 0))
+                      | None =>
+                          match pvf (what * 100 + k * 10 + k2) [a; a2] with
+                          | None => (w, None)
+                          | Some v =>
+                              (if what =? 8 then pv_update s (fun x => let '(k', a', l', _) := x in (k', a', l', Some v)) w else w,
+                               Some (v, 0))
+                          end
+                      end
+                  end
+              end
+            else
+              match pvf (what * 100 + k * 10) [a] with
+              | None => (w, None)
+              | Some v => (w, Some (v, 0))
+              end
+        end
+    end.
+
+  Fixpoint pvrun (w : list (Z * pvobj)) (ops : list pvop) : list (option (arr * Z)) :=
+    match ops with
+    | [] => []
+    | o :: r => let (w1, x) := pvstep w o in x :: pvrun w1 r
+    end.
+End PVMachine.
+
+Definition pvtable : Type := list (Z * list arr * arr).
+Fixpoint pvf_of_table (t : pvtable) (fn : Z) (args : list arr) : option arr :=
+  match t with
+  | [] => None
+  | (f, a, r) :: t' =>
+      if (f =? fn) && kargs_eqb all_off (map (fun x => (false, x)) a) (map (fun x => (false, x)) args)
+      then Some r else pvf_of_table t' fn args
+  end.
+
+Fixpoint pv_all_eqb (ps : list (option (arr * Z))) (ss : list (arr * Z)) : bool :=
+  match ps, ss with
+  | [], [] => true
+  | p :: r, s :: t => obs_match false p s && pv_all_eqb r t
+  | _, _ => false
+  end.
+
+(* verdict: 0 = specification, 2 = machine with stale delta conversions, 1 = unexplained *)
+Definition check_pv (c : pvtable * list pvop * list (arr * Z)) : Z :=
+  let '(t, ops, seen) := c in
+  if pv_all_eqb (pvrun (pvf_of_table t) false [] ops) seen then 0
+  else if pv_all_eqb (pvrun (pvf_of_table t) true [] ops) seen then 2
+  else 1.
